@@ -168,11 +168,14 @@ def collision_tables(case, sig_a, sig_b):
     return c2
 
 
-def gen_collision_case(rng):
+COLLISION_KINDS = ['concat', 'integer', 'boolean', 'printable', 'datetime', 'langcase', 'langmix', 'dtmix']
+
+
+def gen_collision_case(rng, kind=None):
     """Different rows of one source that produce the SAME statement: adjacent references whose concatenations coincide,
     values that canonicalise to the same lexical form, values that differ only in non-printable characters."""
     EX = mapcase.EX
-    kind = rng.choice(['concat', 'integer', 'boolean', 'printable', 'datetime', 'langcase'])
+    kind = kind or rng.choice(COLLISION_KINDS)
     cfg = {'nquads': rng.random() < 0.5, 'mode': rng.choice(['PARTIAL-AGGREGATIONS', 'MAXIMAL', 'NO'])}
     def tm(k, v, ck='iri', tt=''):
         return {'k': k, 'v': v, 'ck': ck, 'tt': tt}
@@ -195,6 +198,16 @@ def gen_collision_case(rng):
         t1, t2 = rng.choice([('en-GB', 'en-gb'), ('EN', 'en'), ('zh-Hant', 'zh-hant'), ('De', 'de')])
         obj = {'m': tm('ref', 'x'), 'lang': tm('const', t1, 'lit'), 'dt': None, 'joins': []}
         extra_obj = {'m': tm('ref', 'x'), 'lang': tm('const', t2, 'lit'), 'dt': None, 'joins': []}
+    elif kind in ('langmix', 'dtmix'):
+        # a constant language tag / datatype next to a reference-valued language / datatype map whose column holds that very constant
+        if kind == 'langmix':
+            rows = [['1', 'colour', 'en'], ['2', 'c', 'fr'], ['3', 'd', 'en']]
+            obj = {'m': tm('ref', 'x'), 'lang': tm('const', 'en', 'lit'), 'dt': None, 'joins': []}
+            extra_obj = {'m': tm('ref', 'x'), 'lang': tm('ref', 'y', 'lit'), 'dt': None, 'joins': []}
+        else:
+            rows = [['1', '5', mapcase.XSD + 'token'], ['2', '7', mapcase.XSD + 'string'], ['3', '8', mapcase.XSD + 'token']]
+            obj = {'m': tm('ref', 'x'), 'lang': None, 'dt': tm('const', mapcase.XSD + 'token'), 'joins': []}
+            extra_obj = {'m': tm('ref', 'x'), 'lang': None, 'dt': tm('ref', 'y'), 'joins': []}
     else:
         rows = [['1', 'a\x07b', 'u'], ['1', 'ab', 'v'], ['1', 'a\u200bb', 'w'], ['2', 'c', 'y']]
         obj = {'m': tm('ref', 'x'), 'lang': None, 'dt': None, 'joins': []}
@@ -203,7 +216,7 @@ def gen_collision_case(rng):
     return {'cfg': cfg, 'sources': [{'key': 'S0', 'kind': 'csv', 'cols': ['k', 'x', 'y'], 'rows': rows}],
             'doc': [{'id': EX + 'tm/TM0', 'src': 'S0', 'nonasserted': False, 'subj': subj, 'sjoins': [], 'classes': [], 'sgraphs': [],
                      'poms': [{'preds': [tm('const', EX + 'p/p')], 'objs': [obj], 'graphs': []}]
-                             + ([{'preds': [tm('const', EX + 'p/p')], 'objs': [extra_obj], 'graphs': []}] if kind == 'langcase' else [])}]}
+                             + ([{'preds': [tm('const', EX + 'p/p')], 'objs': [extra_obj], 'graphs': []}] if kind in ('langcase', 'langmix', 'dtmix') else [])}]}
 
 
 def run(ctx, res):
@@ -282,7 +295,7 @@ def run(ctx, res):
                 res.disagreements.append({'what': 'the implementation (%s) separates two rules the proven criterion does not allow to separate: %s | %s'
                                                   % (mode, sa, sb), 'replay': c})
     # (b) CLI on a sample
-    sample = cases[:ctx.scale(40, 600)] + [gen_collision_case(ctx.rng) for _ in range(ctx.scale(16, 120))]
+    sample = cases[:ctx.scale(40, 600)] + [gen_collision_case(ctx.rng, COLLISION_KINDS[i % len(COLLISION_KINDS)]) for i in range(ctx.scale(16, 120))]     # every kind, in turn
     for mode_dir in (False, True):
         for c, r in zip(sample, cli_outputs(ctx, sample, mode_dir)):
             res.evaluations += 1
@@ -291,8 +304,8 @@ def run(ctx, res):
     multi = [c for c in sample if len(c['doc']) >= 2 and not any(o['m']['k'] in ('parent', 'quoted') for t in c['doc'] for p in t.get('poms', []) for o in p['objs'])
              and not any(t['subj']['k'] == 'quoted' for t in c['doc'])][:ctx.scale(25, 300)]
     # directed: two triples maps in two sections that generate the very same statements (one mapping group spanning both sections)
-    for _ in range(ctx.scale(8, 60)):
-        c = gen_collision_case(ctx.rng)
+    for i_ in range(ctx.scale(8, 60)):
+        c = gen_collision_case(ctx.rng, COLLISION_KINDS[i_ % len(COLLISION_KINDS)])
         t2 = json.loads(json.dumps(c['doc'][0])); t2['id'] = mapcase.EX + 'tm/TM1'
         if ctx.rng.random() < 0.5:
             s2 = json.loads(json.dumps(c['sources'][0])); s2['key'] = 'S1'; c['sources'].append(s2); t2['src'] = 'S1'      # another file with the same content
